@@ -1,6 +1,7 @@
 package query
 
 import (
+	"container/list"
 	"fmt"
 	"io"
 	"strings"
@@ -17,17 +18,69 @@ func Deps(out io.Writer, state *core.BuildState, labels []core.BuildLabel, hidde
 		fmt.Fprintf(out, "  edge [fontname=\"Helvetica,Arial,sans-serif\"]\n")
 		fmt.Fprintf(out, "  rankdir=\"LR\"\n")
 	}
+	levels := depLevels(state, labels, targetLevel, hidden)
 	done := map[core.BuildLabel]bool{}
 	for _, label := range labels {
-		deps(out, state, state.Graph.TargetOrDie(label), done, targetLevel, 0, hidden, formatdot)
+		deps(out, state, state.Graph.TargetOrDie(label), done, levels, targetLevel, 0, hidden, formatdot)
 	}
 	if formatdot {
 		fmt.Fprintf(out, "}\n")
 	}
 }
 
+// depLevel returns the level that the dependencies of dep are at, given that it's a dependency of target at currentLevel.
+func depLevel(target, dep *core.BuildTarget, currentLevel int, hidden bool) int {
+	if !hidden && dep.HasParent() && dep.Label.Parent() == target.Label.Parent() {
+		// This is a hidden dependency of the current target, it doesn't increase the depth
+		return currentLevel
+	}
+	return currentLevel + 1
+}
+
+// depLevels finds the shallowest level at which each dependency of the given targets can be reached.
+// A target can be reachable through several paths of different lengths; it must be visited at
+// the shallowest one, otherwise what is found beneath it depends on the order we happen to explore in.
+func depLevels(state *core.BuildState, labels []core.BuildLabel, targetLevel int, hidden bool) map[core.BuildLabel]int {
+	type item struct {
+		target *core.BuildTarget
+		level  int
+		root   bool
+	}
+	levels := map[core.BuildLabel]int{}
+	queue := list.New() // Ordered by level; hidden dependencies that cost nothing go on the front.
+	for _, label := range labels {
+		queue.PushBack(item{target: state.Graph.TargetOrDie(label), root: true})
+	}
+	for front := queue.Front(); front != nil; front = queue.Front() {
+		it := queue.Remove(front).(item)
+		if it.level == targetLevel || (!it.root && levels[it.target.Label] != it.level) {
+			continue // too deep, or we have since found a shorter way here
+		}
+		for _, l := range it.target.DeclaredDependencies() {
+			dep := state.Graph.TargetOrDie(l)
+			if !state.ShouldInclude(dep) {
+				continue
+			}
+			for _, l := range dep.ProvideFor(it.target) {
+				dep := state.Graph.TargetOrDie(l)
+				level := depLevel(it.target, dep, it.level, hidden)
+				if best, present := levels[l]; present && best <= level {
+					continue
+				}
+				levels[l] = level
+				if level == it.level {
+					queue.PushFront(item{target: dep, level: level})
+				} else {
+					queue.PushBack(item{target: dep, level: level})
+				}
+			}
+		}
+	}
+	return levels
+}
+
 // deps looks at all the deps of the given target & recurses into them, printing as appropriate.
-func deps(out io.Writer, state *core.BuildState, target *core.BuildTarget, done map[core.BuildLabel]bool, targetLevel, currentLevel int, hidden, formatdot bool) {
+func deps(out io.Writer, state *core.BuildState, target *core.BuildTarget, done map[core.BuildLabel]bool, levels map[core.BuildLabel]int, targetLevel, currentLevel int, hidden, formatdot bool) {
 	if currentLevel == targetLevel {
 		return
 	}
@@ -37,21 +90,21 @@ func deps(out io.Writer, state *core.BuildState, target *core.BuildTarget, done 
 			if !state.ShouldInclude(dep) || done[l] {
 				continue // target is filtered out
 			}
+			dep := state.Graph.TargetOrDie(l)
+			level := depLevel(target, dep, currentLevel, hidden)
+			if best, present := levels[l]; !present || best != level {
+				continue // there's a shorter path to this target; it gets visited from there.
+			}
 			done[l] = true
-			if dep := state.Graph.TargetOrDie(l); hidden || !dep.HasParent() {
+			if hidden || !dep.HasParent() {
 				// dep is to be printed; either we're printing hidden deps or it has no parent (i.e. is not hidden)
 				if formatdot {
 					printTargetDot(out, dep, target)
 				} else {
 					printTarget(out, dep, currentLevel)
 				}
-				deps(out, state, dep, done, targetLevel, currentLevel+1, hidden, formatdot)
-			} else if dep.Label.Parent() == target.Label.Parent() {
-				// This is a hidden dependency of the current target, recurse without increasing depth
-				deps(out, state, dep, done, targetLevel, currentLevel, hidden, formatdot)
-			} else {
-				deps(out, state, dep, done, targetLevel, currentLevel+1, hidden, formatdot)
 			}
+			deps(out, state, dep, done, levels, targetLevel, level, hidden, formatdot)
 		}
 	}
 }
